@@ -1128,6 +1128,53 @@ func round7(w *World, r *Report, prop string) {
 		r.Rule("R13.15", "the default that is validated is the default the type reports: validateDefault hands the first result of t.Default() to t.Validate unchanged", 1)
 		r.guard("R13.15", func() { r7DefaultValidatedAsIs(w, r, "R13.15") })
 	case "C14":
+		r.Rule("R14.16", "rpc and notification statements are present under the same test as data nodes: in BuildModule an rpc or a notification is built only after IgnoreNode answered false for it (if-features evaluated, not-supported deviations honoured)", 2)
+		r.guard("R14.16", func() {
+			f := w.SSAFunc(w.Method("compile", "Compiler", "BuildModule"))
+			ign := w.SSAFunc(w.Method("compile", "Compiler", "IgnoreNode"))
+			if f == nil || ign == nil {
+				panic(undecided{"Compiler.BuildModule / IgnoreNode"})
+			}
+			sym := NewSym(w)
+			sym.Expand = false
+			n := 0
+			for _, b := range f.Blocks {
+				for _, in := range b.Instrs {
+					c, ok := in.(*ssa.Call)
+					if !ok || c.Call.StaticCallee() == nil {
+						continue
+					}
+					what := ""
+					switch c.Call.StaticCallee().String() {
+					case modPath + "/schema.NewRpc":
+						what = "rpc"
+					case modPath + "/schema.NewNotification":
+						what = "notification"
+					}
+					if what == "" {
+						continue
+					}
+					n++
+					l, inLoop := loopOf(f, b)
+					good := false
+					if inLoop {
+						saw := false
+						msg := pcImplies(sym.PathCond(l.Header, b, nil), func(a *pcAtom) string {
+							if ic, isC := a.v.(*ssa.Call); isC && a.x == nil && ic.Call.StaticCallee() == ign {
+								saw = true
+								return "ignored"
+							}
+							return ""
+						}, func(env map[string]bool) bool { return !env["ignored"] })
+						good = msg == "" && saw
+					}
+					r.Check(good, "R14.16", "BuildModule builds a "+what+" only if IgnoreNode lets it", c.Pos(), "IgnoreNode(stmt, …) false on the way to the build", "a "+what+" statement is built without asking IgnoreNode: its if-features are not evaluated (it is part of the model although a feature it depends on is disabled) and a not-supported deviation of it has no effect")
+				}
+			}
+			if n == 0 {
+				panic(undecided{"BuildModule: no rpc or notification is built"})
+			}
+		})
 		r.Rule("R14.15", "no written status escapes the weaken-only test: in getStatus every exit is reached either without a status statement or after the comparison of the written status with the inherited one (no value — not `current` either — is returned before it)", 1)
 		r.guard("R14.15", func() {
 			f := w.SSAFunc(w.Method("compile", "Compiler", "getStatus"))
